@@ -136,12 +136,18 @@ func deepCopy(v interface{}) interface{} {
 func deepCopyRev(v interface{}) interface{} {
 	switch t := v.(type) {
 	case []interface{}:
+		if t == nil {
+			return t
+		}
 		out := make([]interface{}, len(t))
 		for i, e := range t {
 			out[i] = deepCopyRev(e)
 		}
 		return out
 	case map[string]interface{}:
+		if t == nil {
+			return t
+		}
 		keys := make([]string, 0, len(t))
 		for k := range t {
 			keys = append(keys, k)
@@ -214,8 +220,14 @@ func deepCopyShared(v interface{}, memo map[uintptr]interface{}) interface{} {
 			}
 			return out
 		}
+		if t == nil {
+			return t
+		}
 		return []interface{}{}
 	case map[string]interface{}:
+		if t == nil {
+			return t
+		}
 		id := reflect.ValueOf(t).Pointer()
 		if c, ok := memo[id]; ok {
 			return c
